@@ -192,6 +192,13 @@ func probeSuite(c Cfg) []Req {
 			Req{Method: "GET", H: []HV{{hOrigin, []string{o, "https://evil.test"}}}},
 			Req{Method: "GET", H: []HV{{hOrigin, []string{"https://evil.test", o}}}},
 			Req{Method: "OPTIONS", H: []HV{{hOrigin, []string{o}}, {hACRM, []string{"GET", "UNLISTED"}}}},
+			// field lines of which some or all are empty
+			Req{Method: "OPTIONS", H: []HV{{hOrigin, []string{o}}, {hACRM, []string{"", ""}}}},
+			Req{Method: "OPTIONS", H: []HV{{hOrigin, []string{"", ""}}, {hACRM, []string{"PUT"}}}},
+			Req{Method: "OPTIONS", H: []HV{{hOrigin, []string{"", o}}, {hACRM, []string{"", "PUT"}}}},
+			Req{Method: "GET", H: []HV{{hOrigin, []string{"", o}}}},
+			preflight(o, "PUT", []string{"", ""}, false),
+			preflight(o, "PUT", []string{"", "", "x-not-allowed"}, false),
 		)
 	}
 	// every fifth request arrives in another shape of *http.Request (protocol version,
